@@ -14,7 +14,7 @@ RULE = ("exhaustive stratum first: every sequence of 18 abstract actions up to l
         "on 1-2 tokens, executed by the real library on the simulated disk; after EVERY call all session handles are read out with "
         "C_GetSessionInfo and compared with the reference model. A case is distinct+non-trivial per (model login state, #RO, #RW sessions of the "
         "token, operation, outcome) reached with at least one predicate evaluated.")
-PROBES = ["login_ok", "login_refused_wrongpin", "so_refused_ro_exists", "ro_refused_so", "inittoken_refused_session", "last_close_logout", "closeall_logout", "failed_call_state_checked", "restart", "enumerated_plans"]
+PROBES = ["login_ok", "login_refused_wrongpin", "so_refused_ro_exists", "ro_refused_so", "inittoken_refused_session", "last_close_logout", "closeall_logout", "failed_call_state_checked", "restart", "enumerated_plans", "call_under_fault", "failed_under_fault"]
 DEATH_IS_VIOLATION = ()
 
 # ---- exhaustive stratum (the quantifier asks for "exhaustively up to a bounded length, randomly beyond"): every sequence of abstract actions up to length
@@ -42,7 +42,7 @@ def act(g, name, A, B):
     live = list(P.sessions.values()); liveA = [s for s in live if s.tok == A]; liveB = [s for s in live if s.tok == B]
     def login(s, user, right):
         tk = s.tok; cur = w.toks[tk].so_pin if user == K.CKU_SO else w.toks[tk].user_pin
-        pin = cur if right else g.near_pin(cur or b"abcd")
+        pin = cur if (right and cur is not None) else g.near_pin(cur or b"abcd")
         ok = right and cur is not None and P.login.get(tk) is None and not (user == K.CKU_SO and any(not z.rw for z in w.sessions_on(1, tk)))
         g.emit({"f": "C_Login", "s": s.ref, "user": user, "pin": pin.hex()}, ok=ok)
     if name.startswith("open"):
@@ -161,7 +161,27 @@ def gen(seed, tier, index):
             would = not (not rw and P.login.get(t) == "S")
             g.emit({"f": "C_OpenSession", "slot": t, "flags": RW if rw else RO, "out": s}, ok=would)
         g.emit(dict(probe))
+    if index % 6 == 5:
+        # fault stratum: the walk ends with ONE call that writes the token file (C_SetPIN, C_InitPIN, C_Login) and gets a file-operation fault somewhere in
+        # its I/O sequence (position chosen by prepare() after a counting pass). A call that FAILS - for whatever reason - leaves every session's state
+        # unchanged. The plan stops there: what an I/O error does to the token file itself is C09's and C16's business.
+        w = g.w; P = w.proc(1); live = list(P.sessions.values())
+        cands = []
+        for s_ in live:
+            st_ = P.login.get(s_.tok); tk = w.toks[s_.tok]
+            if s_.rw and st_ is None and tk.user_pin is not None: cands.append({"f": "C_SetPIN", "s": s_.ref, "old": tk.user_pin.hex(), "new": g.pin().hex()})
+            if s_.rw and st_ == "U": cands.append({"f": "C_SetPIN", "s": s_.ref, "old": tk.user_pin.hex(), "new": g.pin().hex()})
+            if s_.rw and st_ == "S": cands.append({"f": "C_SetPIN", "s": s_.ref, "old": tk.so_pin.hex(), "new": g.pin().hex()}); cands.append({"f": "C_InitPIN", "s": s_.ref, "pin": g.pin().hex()})
+            if st_ is None and tk.user_pin is not None: cands.append({"f": "C_Login", "s": s_.ref, "user": K.CKU_USER, "pin": tk.user_pin.hex()})
+        if cands:
+            g.emit(r.choice(cands))
+            g.extra["fault_candidates"] = [len(g.ops[0]) - 1]
+            g.emit(dict(probe))
     return g.plan()
+
+def prepare(plan, z):
+    from gen import place_faults
+    return place_faults(plan, z, plan["seed"])
 
 def _v(cls, msg, **kw):
     d = {"class": cls, "msg": msg}; d.update(kw); return d
@@ -172,10 +192,13 @@ def check(plan, r):
     cov = set(); stats = {}
     def st(k): stats[k] = stats.get(k, 0) + 1
     pids = hist.pid_track(plan)
+    fault_ops = set(e.get("op") for e in r.hist if e.get("e") == "fs" and e.get("fault"))
     for tid, k, op, ret in hist.walk(plan, r):
         pid = pids[tid][k]
         P = w.proc(pid)
         f = hist.opname(op); rv = ret.get("rv")
+        faulted = k in fault_ops
+        if faulted: st("call_under_fault"); st("failed_under_fault") if rv not in (0, None) else None
         ok = rv == 0
         s = w.sess(pid, op.get("s")) if "s" in op else None
         if f == "C_Login" and s is not None and op.get("user") in (K.CKU_USER, K.CKU_SO):
@@ -191,7 +214,7 @@ def check(plan, r):
                 if ok and not expect:
                     why = "wrong PIN" if pin != cur else "somebody already logged in" if not nobody else "RO session exists (SO login)" if (user == K.CKU_SO and ro_exists) else "user PIN not initialised"
                     viols.append(_v("C03.login_accepted", "C_Login(user=%d) returned CKR_OK although it must be refused: %s" % (user, why), call="C_Login", op=k, why=why))
-                elif not ok and expect:
+                elif not ok and expect and not faulted:
                     viols.append(_v("C03.login_refused", "C_Login(user=%d) with the correct PIN and nobody logged in returned %s" % (user, K.rvname(rv)), call="C_Login", op=k, rv=K.rvname(rv)))
                 if expect and ok: st("login_ok")
                 if not ok and pin != cur: st("login_refused_wrongpin")
